@@ -637,3 +637,41 @@ func (c *Ctx) FullLoop(fn *ssa.Function, anchor Target, level int, why string) {
 		}
 	}
 }
+
+// StickyFlag (K12): the effect (call matching spec whose canonical argument idx matches glob) happens only when a
+// found-flag is false, and that flag is STICKY: initialised false and only ever set to true (`phi{false|loop|true}`, or
+// `phi{false|true}` when the scan breaks at the first hit) - a flag that is re-assigned by every iteration
+// (`found = a == b`) remembers only the last element scanned.
+func (c *Ctx) StickyFlag(fn *ssa.Function, spec string, idx int, glob, why string) {
+	if fn == nil {
+		return
+	}
+	fnName := load.QualName(fn)
+	what := fmt.Sprintf("%s(arg%d~`%s`) happens only while a sticky found-flag is still false", spec, idx, glob)
+	n := 0
+	for _, e := range EffectsOf(fn, spec) {
+		if idx >= len(e.Args) || !Glob(glob, e.Args[idx]) {
+			continue
+		}
+		n++
+		c.Sites++
+		okFlag, seen := false, ""
+		for _, g := range e.Guards {
+			if !strings.HasPrefix(g.Canon, "phi{") {
+				continue
+			}
+			seen += " " + condStr(g)
+			if !g.Sense && (g.Canon == "phi{false|loop|true}" || g.Canon == "phi{false|true}") {
+				okFlag = true
+			}
+		}
+		if okFlag {
+			c.OK("K12", fnName, what, c.At(e.Call), why)
+		} else {
+			c.Fail("K12", fnName, what, c.At(e.Call), "no sticky flag guards it (flag conditions seen:"+seen+"): "+why)
+		}
+	}
+	if n == 0 {
+		c.Fail("floor", fnName, what, "-", "no such effect")
+	}
+}
